@@ -200,6 +200,16 @@ def run(case, rec):
                 rec.check(False, "no-exception", f"volume raised {c.exc!r}; {label}")
             else:
                 rec.count("volume_not_implemented")
+            # a class that reports a surface area has to report the area of its own surface
+            c = common.monitored(rec, "surface_area", lambda: d.surface_area)
+            if c.ok:
+                aq = curvature.surface_3d(cls, R, amps)
+                rec.check(abs(float(c.result) - aq) <= 1e-5 * aq, "surface",
+                          f"surface_area {c.result!r} != area of the surface {aq!r} (quadrature); {label}")
+            elif not isinstance(c.exc, (NotImplementedError, AttributeError)):
+                rec.check(False, "no-exception", f"surface_area raised {c.exc!r}; {label}")
+            else:
+                rec.count("surface_area_not_implemented")
         # ---- triangulation vertices lie on the interface
         res = case["resolution"] * R
         c = common.monitored(rec, "get_triangulation", d.get_triangulation, res)
